@@ -78,7 +78,9 @@ int nondet_int(void) { return 0; } unsigned long nondet_ulong(void) { return 0; 
 '''
     main = '''
 static int *readw(const char *p) { FILE *f = fopen(p, "r"); if (!f) return 0; int L[8]; long n; for (int i = 0; i < 8; i++) fscanf(f, "%d", &L[i]); fscanf(f, "%ld", &n);
-  int *w = malloc(sizeof(int) * (n + 1)); for (long i = 0; i < n; i++) fscanf(f, "%d", &w[i]); fclose(f); return w; }
+  int *w = malloc(sizeof(int) * (n + 1)); for (long i = 0; i < n; i++) fscanf(f, "%d", &w[i]);
+  if (XLIST_N == 0) { int x; while (XLIST_N < 64 && fscanf(f, "%d", &x) == 1) XLIST[XLIST_N++] = x; }
+  fclose(f); return w; }
 int main(int argc, char **argv) { MODE_REAL = argv[1][0] == 'r'; W_PRE = readw(argv[2]); W_POST = argc > 3 ? readw(argv[3]) : 0; W_POST2 = argc > 4 ? readw(argv[4]) : 0;
   native_check(); printf("DONE %d\\n", n_fail); return 0; }
 '''
